@@ -61,7 +61,7 @@ def reentrant_case(col, pid, rng, cidx, jobref):
     DAG inside the function."""
     from tawazi import Resource, dag, xn
 
-    how = rng.choice(["call_in_body", "call_in_body", "dag_object_as_node_function", "built_in_body"])
+    how = jobref.get("how") or rng.choice(["call_in_body", "call_in_body", "dag_object_as_node_function", "built_in_body"])
     # (DAG objects used as node functions may have setup nodes: the node owns a private copy of the DAG, the user's object stays as built)
     sp = sched.gen_shape(rng, nmin=2, nmax=6, mc_max=3, const_objects=0.0, setup_rate=0.35 if how == "dag_object_as_node_function" else 0.0)
     sp["is_async"] = rng.random() < 0.3 and how != "dag_object_as_node_function"
@@ -150,9 +150,11 @@ def reentrant_case(col, pid, rng, cidx, jobref):
             step = "reconfigured"  # (calling a DAG inside a description is the sync flavour's feature)
         tgt = od
         try:
+            seq_conf = rng.random() < 0.5
             if step in ("reconfigured", "both"):
                 names = [i for i in od.exec_nodes if not (">!>" in i or "<!<" in i) and not i.startswith("post_")]
-                od.config_from_dict({"nodes": {i: {"priority": 2} for i in names}})
+                # (half of the time the reload also makes the DAG-object nodes sequential: they then never overlap another node)
+                od.config_from_dict({"nodes": {i: ({"priority": 2, "is_sequential": True} if seq_conf else {"priority": 2}) for i in names}})
             if step in ("nested", "both"):
                 def outer2(x):
                     return od(x)
@@ -166,6 +168,17 @@ def reentrant_case(col, pid, rng, cidx, jobref):
                 raise
             r2 = ("exc", e)
         col.counters["env_dag_object_nodes:" + step] += 1
+        if step == "reconfigured" and seq_conf and r2[0] == "ok":
+            lg2 = B.snapshot()
+            tok0 = next((e["token"] for e in lg2 if e["kind"] == "POOL_NEW"), None)  # the outer execution's pool is created first
+            iv = {}
+            for e in lg2:
+                if e.get("token") == tok0 and e["kind"] in ("XENTER", "XEXIT") and e.get("node") in names:
+                    iv.setdefault(e["node"], {})[e["kind"]] = e["seq"]
+            col.counters["env_dag_object_nodes_made_sequential_by_a_reload"] += 1
+            done = [(n_, v_["XENTER"], v_.get("XEXIT", 1 << 60)) for n_, v_ in iv.items() if "XENTER" in v_]
+            if len(done) == 2 and not (done[0][2] < done[1][1] or done[1][2] < done[0][1]):
+                col.violation(pid, "dag_object_node_configured_sequential_overlapped_another_node", dict(intervals=done, **rp["outer"], inner_source=S.render(sp)), rp)
         if r2[0] != "ok" or not same(exp, r2[1]):
             col.violation(pid, "dag_with_a_dag_object_as_node_function_wrong_when_" + step, dict(
                 outcome=short(r2, 300), cause=repr(getattr(r2[1], "__cause__", None))[:200] if r2[0] == "exc" else None, expected=short(exp, 300),
